@@ -11,7 +11,6 @@ import (
 )
 
 var (
-	ErrUnknownKeyType  = errors.New("unknown key type")
 	ErrBadIndexedField = errors.New("bad indexed field")
 )
 
@@ -92,11 +91,10 @@ func newIndexedField(value interface{}, objid uint64) (*indexedField, error) {
 	return &indexedField{value, objid}, err
 }
 
-func (f *indexedField) valueTypeFromString(t string) {
+func (f *indexedField) valueTypeFromString(t string) (err error) {
 	// numbers decoded from json are json.Number (see UnmarshalJSON)
 	// values built in memory already have their final type
 	if n, ok := f.Value.(json.Number); ok {
-		var err error
 		switch t {
 		case "float64":
 			f.Value, err = strconv.ParseFloat(n.String(), 64)
@@ -106,21 +104,30 @@ func (f *indexedField) valueTypeFromString(t string) {
 			f.Value, err = strconv.ParseUint(n.String(), 10, 64)
 		}
 		if err != nil {
-			panic(fmt.Errorf("%w %s: %s", ErrUnknownKeyType, t, err))
+			return fmt.Errorf("%w %s: %s", ErrBadIndexedField, t, err)
 		}
 	}
 
+	// the value must have the type announced by the index
+	ok := false
 	switch t {
 	case "float64":
-		f.Value = f.Value.(float64)
+		_, ok = f.Value.(float64)
 	case "int64":
-		f.Value = f.Value.(int64)
+		_, ok = f.Value.(int64)
 	case "uint64":
-		f.Value = f.Value.(uint64)
+		_, ok = f.Value.(uint64)
 	case "string":
+		_, ok = f.Value.(string)
 	default:
-		panic(fmt.Errorf("%w %s", ErrUnknownKeyType, t))
+		return fmt.Errorf("%w %s", ErrUnknownKeyType, t)
 	}
+
+	if !ok {
+		return fmt.Errorf("%w: value %v is not a %s", ErrBadIndexedField, f.Value, t)
+	}
+
+	return
 }
 
 func (f *indexedField) valueTypeString() string {
